@@ -20,7 +20,7 @@ RULE = (
     "A C14 tree (placeholder files) plus one real channel 'real' (RF recording with gaps and its 'metadata' Digital "
     "Metadata channel, written by the real writers) is built; Hypothesis draws a command in {cp, mv, ln, ln "
     "--symbolic} with -c channel lists (none / one / comma list / repeated), --only, -R, -s/-e as ISO strings, "
-    "float stamps or '+offset', the include flags, and the destination on the same or on another file system, the source optionally reached through a symbolic link, optionally two new files arriving in the source after the first or the last transfer, run through digital_rf.drf_command.main. Oracle: the relative "
+    "float stamps or '+offset', the include flags, channel names spelled plain / with a trailing slash / with a leading ./, the destination optionally reached through a symbolic link to a directory at another depth, and the destination on the same or on another file system, the source optionally reached through a symbolic link, optionally two new files arriving in the source after the first or the last transfer, run through digital_rf.drf_command.main. Oracle: the relative "
     "paths of lsdrf(src, same options) on the pristine tree; the destination must hold exactly that set (plus parent "
     "directories only), byte-identical / same inode / symlink to the source; cp and ln leave the source snapshot "
     "unchanged, mv removes exactly the transferred files; when the real channel's properties and data files were "
@@ -99,6 +99,10 @@ def _cases(draw, tier):
     case["dmd"] = draw(st.sampled_from([True, True, True, False]))
     case["drfprops"] = draw(st.sampled_from([None, None, True, False]))
     case["dmdprops"] = draw(st.sampled_from([None, None, True, False]))
+    # spelling of the -c channel names (all name the same directory) and a destination reached through a symbolic link to
+    # a directory at another depth (a relative link computed lexically would dangle there)
+    case["chform"] = draw(st.sampled_from(["plain", "plain", "slash", "dot"]))
+    case["destlink"] = draw(st.integers(0, 3)) == 0
     return case
 
 
@@ -118,8 +122,9 @@ def argv_for(case, src, dest):
     a = ["ln" if cmd == "lnsym" else cmd, src, dest]
     if cmd == "lnsym":
         a.append("--symbolic")
+    form = case.get("chform", "plain")
     for grp in case["chs"] or []:
-        a += ["-c", ",".join(grp)]
+        a += ["-c", ",".join({"plain": x, "slash": x + "/", "dot": "./" + x}[form] for x in grp)]
     if case["only"]:
         a.append("--only")
     if case["reverse"]:
@@ -182,6 +187,13 @@ def _run_case(case):
             shutil.rmtree(xroot, ignore_errors=True)
             out_root = os.path.join(xroot, "out")
             res.cls("cross-device")
+        dest_alias = None
+        if case.get("destlink") and not xroot:
+            out_root = os.path.join(base, "out", "mnt", "raid3", "projects", "archive")
+            os.makedirs(out_root)
+            dest_alias = os.path.join(base, "archive")
+            os.symlink(out_root, dest_alias)
+            res.cls("destination-through-symlink")
         dest = os.path.join(out_root, os.path.basename(src) if case["src"] != "top" else "top")
         os.makedirs(os.path.dirname(dest), exist_ok=True)
         kwargs = dict(recursive=not case["only"], reverse=case["reverse"], starttime=L.to_dt(case["start"]), endtime=L.to_dt(case["end"]),
@@ -221,7 +233,9 @@ def _run_case(case):
             os.symlink(top, os.path.join(base, "linked"))
             src_cmd = os.path.join(base, "linked" + case["src"][3:])
             res.cls("symlinked-source")
-        argv = argv_for(case, src_cmd, dest)
+        argv = argv_for(case, src_cmd, dest if dest_alias is None else os.path.join(dest_alias, os.path.basename(dest)))
+        if case["chs"] and case.get("chform", "plain") != "plain":
+            res.cls("channel-name-spelling")
         arrivals = {}
         counter = [0]
         real_fns = {"copy2": shutil.copy2, "move": shutil.move, "link": os.link, "symlink": os.symlink}
@@ -361,7 +375,8 @@ def run_case(case):
 
 def shrink_candidates(case):
     for key, val in (("chs", None), ("only", False), ("reverse", False), ("start", None), ("end", None), ("drfprops", None),
-                     ("dmdprops", None), ("tfmt", "iso"), ("drf", True), ("dmd", True), ("xdev", False), ("symlink", False), ("arrive", None)):
+                     ("dmdprops", None), ("tfmt", "iso"), ("drf", True), ("dmd", True), ("xdev", False), ("symlink", False), ("arrive", None),
+                     ("chform", "plain"), ("destlink", False)):
         if key not in case:
             continue
         if case[key] != val:
